@@ -346,6 +346,7 @@ type engineOpts struct {
 	rows       []rowSpec
 	withModel  bool // write a model case (else oracle only)
 	viaAtlas   bool // create A through Atlas' own plan from the empty schema (no uniques then)
+	viaAtlasInspected bool // ... and the desired state of that first apply is the inspected form of A (numeric fk symbols become constraint names)
 }
 
 // engineCase runs one (A, B) pair on a real database; returns false when the case was unusable.
@@ -410,7 +411,15 @@ func (c *ctx) engineCase(a, b Schema, desc string, o engineOpts) {
 	// setup
 	setupErr := error(nil)
 	if o.viaAtlas {
-		cs, err, _ := diffReal(schema.New("main"), build("sqlite", a))
+		first := build("sqlite", a)
+		if o.viaAtlasInspected {
+			g, err := inspectedDesired(a)
+			if err != nil {
+				panic(fmt.Sprintf("harness: current spec is not valid SQLite: %v", err))
+			}
+			first = g
+		}
+		cs, err, _ := diffReal(schema.New("main"), first)
 		if err == nil {
 			err = l.drv.ApplyChanges(bg, cs)
 		}
@@ -690,7 +699,7 @@ func runOracle(c *ctx) {
 	}
 	// unnamed foreign keys, desired state as inspected (numeric symbols)
 	for i, fc := range fkGrid(c.thorough) {
-		c.engineCase(fc.a, fc.b, fc.desc, engineOpts{inspected: true, file: i%4 == 0, fk: i%2 == 0, viaAtlas: i%3 == 1})
+		c.engineCase(fc.a, fc.b, fc.desc, engineOpts{inspected: true, file: i%4 == 0, fk: i%2 == 0, viaAtlas: i%3 != 0, viaAtlasInspected: i%3 == 2})
 	}
 	// populated tables x a single edit of the ALTER path or of its border (what alterable() must send to the rebuild)
 	border := map[string]bool{"add-col-nonconst-default": true, "add-col-null": true, "add-col-notnull-default": true,
